@@ -262,30 +262,8 @@ Definition raw_parse (p : list byte) : option (list byte) :=
   | [] => None
   end.
 
-(* ---- instance B: RpcMessage (rpc.proto) serialisation, canonical field order;
-   used by the correspondence check only (protobuf itself is an environment
-   parameter of the theorems) *)
-Fixpoint varint (fuel : nat) (z : Z) : list byte :=
-  match fuel with
-  | O => []
-  | S f => if z <? 128 then [byte_of_Z z]
-           else byte_of_Z (128 + z mod 128) :: varint f (z / 128)
-  end.
-Record rpc_msg : Type := mkRpc {
-  rpc_type : Z; rpc_id : Z;
-  rpc_service : option (list byte); rpc_method : option (list byte);
-  rpc_request : option (list byte); rpc_response : option (list byte);
-  rpc_error : option Z }.
-Definition ld (key : byte) (f : option (list byte)) : list byte :=
-  match f with
-  | Some d => key :: varint 10 (Z.of_nat (length d)) ++ d
-  | None => []
-  end.
-Definition rpc_ser (m : rpc_msg) : list byte :=
-  x08 :: varint 10 (rpc_type m) ++ x11 :: rev (be_encode 8 (rpc_id m))
-  ++ ld x1a (rpc_service m) ++ ld x22 (rpc_method m) ++ ld x2a (rpc_request m)
-  ++ ld x32 (rpc_response m)
-  ++ match rpc_error m with Some e => x38 :: varint 10 e | None => [] end.
+(* ---- instance B: RpcMessage (rpc.proto): the payload format is modelled by the C19 owner in
+   C19_Wire.v (wire_parse / wire_ser); C18_RpcInstance.v instantiates this Section with it. *)
 
 (* ======================================================================== *)
 (* HTTP request parser                                                       *)
